@@ -53,10 +53,10 @@ def nRename (cfg : NCfg) (s : NSt UInt8) : NSt UInt8 :=
   | some _ => { s with fs := s.fs.remove, evq := s.evq ++ [renameEv cfg], removes := s.removes + 1 }
   | none => s
 
-/-- `o<hex>`: a new file with this content is renamed onto the path – the writer step of `NStepO` (as the code is) -/
+/-- `o<hex>`: a new file with this content is renamed onto the path – the writer step of `NStepO` (one Create event) -/
 def nReplace (s : NSt UInt8) (bs : Bytes) : NSt UInt8 :=
   match s.fs.path with
-  | some _ => { s with fs := s.fs.replace bs, evq := s.evq ++ [.create] }
+  | some _ => { s with fs := s.fs.replace bs, evq := s.evq ++ [.create], removes := s.removes + 1 }
   | none => s
 
 /-- one step of the kernel goroutine, if it has one -/
@@ -520,8 +520,9 @@ def apiAnswer (content calls : String) : String :=
     s!"ok {",".intercalate (rs.map showRes)} delivered={s.delivered.length}"
   | _, _ => "bad-args"
 
-/-- `follow` (the code as it is) / `followspec` (an atomic replace counts as removal + re-creation: what the
-    property asks of re-open follow – the KNOWN FINDING of `known_findings/C15.json` is the difference) -/
+/-- `follow` (the LTS of the code as it is) / `followspec` (an atomic replace counts as removal + re-creation:
+    what the property asks of re-open follow; since the `fix:` commit f4a9570 the two agree for -F – before it
+    the difference was the known finding of `known_findings/C15.json`) -/
 def followAnswer (spec : Bool) (mode reopenS tailS hist : String) : String :=
   let reopen := reopenS == "1"
   let tail := tailS == "1"
